@@ -66,17 +66,20 @@ func runC16Big(c *vh.Case) {
 		mu.Unlock()
 		ret = v
 		res, err := pair.CS.CallTool(ctx, &mcp.CallToolParams{Name: "big", Arguments: json.RawMessage(fmt.Sprintf(`{"n":%d}`, v))})
-		if err != nil || res.IsError {
-			c.Violate("valid-input-rejected", "tool big (int64 argument) called with n=%d: %v %s", v, err, vh.JSON(res))
-			return
-		}
-		mu.Lock()
-		got, sc := append([]int64(nil), seen...), strings.Join(wireSC, ";")
-		mu.Unlock()
 		beyond := ""
 		if v > 1<<53 || v < -(1<<53) {
 			beyond = "/integer-beyond-2^53"
 		}
+		if err != nil || res.IsError {
+			c.Violate("valid-input-rejected"+beyond, "tool big (int64 argument) called with n=%d: %v %s", v, err, vh.JSON(res))
+			if beyond == "" {
+				return
+			}
+			continue
+		}
+		mu.Lock()
+		got, sc := append([]int64(nil), seen...), strings.Join(wireSC, ";")
+		mu.Unlock()
 		if len(got) != 1 || got[0] != v {
 			c.Violate("handler-input-differs"+beyond, "tool big called with n=%d: the handler received %v", v, got)
 			if beyond == "" {
